@@ -140,6 +140,22 @@ def _object_assertion_to_cst(assertion: ass.ObjectAssertion) -> cst.SimpleStatem
     )
 
 
+def _int_literal(value: int) -> cst.Integer:
+    """Create a literal for a non-negative int.
+
+    Args:
+        value: The non-negative value.
+
+    Returns:
+        A decimal literal, or a hexadecimal one for values with more digits than the
+        interpreter converts to a decimal string.
+    """
+    try:
+        return cst.Integer(str(value))
+    except ValueError:
+        return cst.Integer(hex(value))
+
+
 def _value_to_cst(value: Any) -> cst.BaseExpression:  # noqa: C901
     """Recursively convert a Python value to a libcst expression.
 
@@ -158,11 +174,17 @@ def _value_to_cst(value: Any) -> cst.BaseExpression:  # noqa: C901
         # StrEnum/IntEnum are instances of str/int, too.
         class_name = type(value).__name__
         member_name = value.name
+        if member_name is None or not member_name.isidentifier():
+            # A composite or unnamed Flag member (Perm.R | Perm.W, Perm(0)) has no name
+            # to refer to; it is rebuilt from its value.
+            return cst.Call(
+                func=cst.Name(class_name), args=[cst.Arg(value=_value_to_cst(value.value))]
+            )
         return cst.Attribute(value=cst.Name(class_name), attr=cst.Name(member_name))
     if isinstance(value, int):
         if value < 0:
-            return cst.UnaryOperation(operator=cst.Minus(), expression=cst.Integer(str(-value)))
-        return cst.Integer(str(value))
+            return cst.UnaryOperation(operator=cst.Minus(), expression=_int_literal(-value))
+        return _int_literal(value)
     if isinstance(value, float):
         return _make_float_literal(value)
     if isinstance(value, str):
